@@ -26,7 +26,7 @@ pub const SETS: &[(&str, &str)] = &[
 ];
 
 fn target_dir(name: &str) -> PathBuf {
-    PathBuf::from(crate::engine::VERIF)
+    PathBuf::from(crate::engine::verif_root())
         .join("work")
         .join("target-c20")
         .join(name)
@@ -38,11 +38,11 @@ fn dumper(name: &str) -> PathBuf {
 
 /// build the corpus runner once per feature set (in parallel); Err = infrastructure problem
 pub fn build_all() -> Result<(), String> {
-    let harness = PathBuf::from(crate::engine::VERIF).join("harness");
+    let harness = PathBuf::from(crate::engine::verif_root()).join("harness");
     let mut children = Vec::new();
     for (name, feats) in SETS {
         let log = fs::File::create(
-            PathBuf::from(crate::engine::VERIF)
+            PathBuf::from(crate::engine::verif_root())
                 .join("work")
                 .join(format!("build-c20-{}.log", name)),
         )
